@@ -10,6 +10,9 @@
    7dba6c7, 69a4591 and 6af5287; no theorem below carries a known-class hypothesis, and the former
    witnesses are examples at the end of this file. *)
 From Calamine Require Import Prelude XmlText XmlText_proofs Utf16 Utf16_proofs.
+(* xls: the string readers are C12's models (BiffSst.v); required without Import, the names are
+   qualified below (BiffSst and XmlText / Utf16 share several short names) *)
+From Calamine Require BiffSst BiffSst_proofs XlsText_proofs.
 Open Scope N_scope.
 
 (* ---------- the ST_Xstring layer (ECMA-376 _xHHHH_) ---------- *)
@@ -148,6 +151,45 @@ Theorem C19_text_survives_utf16 : forall s rest,
 Proof. exact wide_str_roundtrip. Qed.
 
 (* xls decode_to under code page 1200, one fragment: 8-bit and 16-bit storage *)
+(* ---------- xls (BIFF8): shared string / inline LABEL / formula string result ----------
+   A corollary composing C12's theorems (C12_later_strings_unaffected + C12_labelsst_resolves for
+   the shared-string table under EVERY legal CONTINUE layout, rich runs and phonetic blocks
+   included; C12_parse_label_ok; C12_formula_string_any_split for STRING + CONTINUE under every
+   legal fragmentation and 8/16-bit mixture) with the UTF-16 round trip above: for every text s
+   (Unicode scalar values) the BIFF8 readers return exactly s.  The position of the cell and the
+   range around it are C02's (C02_xls_sheet_main takes the decoded string table as its
+   environment) and, in C12's reduced workbook model, C12_workbook_strings. *)
+Theorem C19_text_survives_xls : forall s, Forall scalar s ->
+  (forall strs lay i row col ixfe,
+     BiffSst.legal_layout strs lay = true -> i <= 4294967295 ->
+     nth_error strs (N.to_nat i) = Some (utf16_encode s) ->
+     exists tbl, BiffSst.parse_sst (BiffSst.sst_encode strs lay) = Ok tbl /\
+       length tbl = length strs /\
+       nth_error tbl (N.to_nat i) = Some s /\
+       BiffSst.parse_label_sst (BiffSst.labelsst_body row col ixfe i) tbl =
+       Ok (if BiffSst.is_nil s then None else Some (row, col, s)))
+  /\ (forall row col ixfe hb, BiffSst.legal_xl_string hb (utf16_encode s) = true ->
+        BiffSst.parse_label (BiffSst.label_body row col ixfe hb (utf16_encode s)) =
+        Ok (Some (row, col, s)))
+  /\ (forall hb cuts rest, BiffSst.legal_fstring (utf16_encode s) hb cuts = true ->
+        BiffSst.string_arm
+          (fst (BiffSst.frags (BiffSst.fstring_items (utf16_encode s) hb cuts ++ rest)))
+          (BiffSst.cont_opt
+             (snd (BiffSst.frags (BiffSst.fstring_items (utf16_encode s) hb cuts ++ rest))))
+        = Ok s).
+Proof. exact XlsText_proofs.text_survives_xls. Qed.
+
+Example C19_xls_nonvacuous :
+  Forall scalar XlsText_proofs.ex_text /\
+  utf16_encode XlsText_proofs.ex_text = [97; 55357; 56832; 233] /\
+  BiffSst.legal_layout [[72; 105]; utf16_encode XlsText_proofs.ex_text]
+    (BiffSst.mkLay 2
+       [BiffSst.mkSL false false [] (Some [(0, 1); (1, 2)]) None [5%nat];
+        BiffSst.mkSL true true [(2%nat, true)] None (Some [1; 2; 3]) [1%nat]]) = true /\
+  BiffSst.legal_xl_string true (utf16_encode XlsText_proofs.ex_text) = true /\
+  BiffSst.legal_fstring (utf16_encode XlsText_proofs.ex_text) true [(2%nat, true); (1%nat, false)] = true.
+Proof. exact XlsText_proofs.example_text_xls. Qed.
+
 Theorem C19_decode_to_8bit : forall s rest, Forall (fun c => c < 256) s ->
   decode_to_utf16 false (s ++ rest) (N.of_nat (length s)) =
   (s, N.of_nat (length s), N.of_nat (length s)).
@@ -364,6 +406,8 @@ Print Assumptions C19_wf_utf16_covered.
 Print Assumptions C19_lone_surrogate_replaced.
 Print Assumptions C19_utf16_decode_scalars.
 Print Assumptions C19_text_survives_utf16.
+Print Assumptions C19_text_survives_xls.
+Print Assumptions C19_xls_nonvacuous.
 Print Assumptions C19_decode_to_8bit.
 Print Assumptions C19_decode_to_16bit.
 Print Assumptions C19_xstring_boundaries.
